@@ -83,10 +83,17 @@ CHECKS = [
         "note": COMMON_NOTE,
         "technique": 'closed-world type inference + typed call-graph reachability; intraprocedural taint with an aggregation catalogue; guard typestate (dominance/closure); ownership classification of constructor sites',
     },
+    {
+        "property_id": "C07",
+        "text": "Isolation as an effects property: every attribute write reachable from evaluate_new_data targets a fresh/under-construction object, a stateful transform under its fit-once regime, or the write-once transform slot; every in-place array/container mutation on that path and in the registry targets an object created in the same call (reaching definitions + freshness lattice); the inventory of long-lived state (module/class-level mutables, their writers, mutable defaults, global, memoisation decorators) is closed; fitted state is per instance; the caller's frame and namespace are never written; a Model is built per design; no randomness and no set-order dependence of labels/columns. Not decided: numerical equality across histories (follows only if user functions are pure).",
+        "design_ref": 'DESIGN.md section 3, C07 (R7.1-R7.7)',
+        "note": COMMON_NOTE,
+        "technique": 'effect analysis over the typed call graph; reaching definitions on the CFG + freshness lattice; who-may-write inventory with positive controls',
+    },
 ]
 PENDING = "claimed in DESIGN.md; its check is not registered in this revision of /verif yet"
 NOT_APPLICABLE = [
     {"property_id": "C03", "reason": "rank and column space of a data-dependent matrix are linear-algebra facts about runtime values; no sound static argument in reach bounds the patsy-style redundancy algorithm for every term family and order"},
     {"property_id": "C13", "reason": "rank, zero-sum and span of contrast matrices for every size/reference are algebraic identities over np.eye/vstack index arithmetic; deciding them needs evaluation or proof, not code shape (index agreement between matrix and labels is decided under C04, option plumbing under C16)"},
     {"property_id": "C14", "reason": "mean zero, unit deviation, partition of unity, orthonormality are numerical identities over all inputs; the only shape-level clause (parameters fitted once and frozen) is decided under C06"},
-] + [{"property_id": p, "reason": PENDING} for p in ["C04", "C05", "C07", "C08", "C15", "C16"]]
+] + [{"property_id": p, "reason": PENDING} for p in ["C04", "C05", "C08", "C15", "C16"]]
